@@ -102,6 +102,8 @@ const (
 	// InvDevDoubleNS: deviate not-supported written twice in one deviation; the
 	// second one has nothing left to remove.
 	InvDevDoubleNS = "dev-not-supported-twice"
+	// InvDevBadPrefix: a step after the first under a prefix declared nowhere.
+	InvDevBadPrefix = "dev-undeclared-prefix"
 	// InvFanoutChain: an unresolvable typedef below a chain of typedefs each of
 	// which is a union of two references to the level below: resolution work
 	// must stay polynomial (a hang is a C01 violation).
@@ -1363,6 +1365,13 @@ func (g *gen) deviations() {
 		isListy := x.Kind == KList || x.Kind == KLeafList
 		// invalid deviations first (each makes the whole scenario "must report")
 		switch {
+		case len(d.Target) >= 2 && g.wantInvalid(InvDevBadPrefix):
+			d.BadPrefix = 1 + t.Intn(len(d.Target)-1)
+			d.Deviates = []*Deviate{{Kind: "not-supported"}}
+			if t.Chance(1, 2) {
+				d.Deviates = []*Deviate{{Kind: "replace", Config: "false"}}
+			}
+			d.Invalid = InvDevBadPrefix
 		case g.wantInvalid(InvDevMissing):
 			d.Target = append(append([]Step(nil), d.Target...), Step{d.Target[len(d.Target)-1].Mod, g.id("nosuchnode")})
 			d.Deviates = []*Deviate{{Kind: "add", Config: "false"}}
